@@ -13,7 +13,7 @@ from harness import ops
 
 MODEL = ['Gen/GenConsts.v', 'Model/Base.v', 'Model/Tables.v', 'Model/Txn.v', 'Model/Handlers.v', 'Model/Conc.v',
          'Proofs/Defs.v', 'Proofs/ConcDefs.v']
-DEPS = {'C05': MODEL + ['Proofs/C05.v'], 'C06': MODEL + ['Proofs/C06.v'], 'C07': MODEL + ['Proofs/C07.v']}
+DEPS = {'C05': MODEL + ['Proofs/C05.v'], 'C06': MODEL + ['Proofs/C06.v'], 'C07': MODEL + ['Proofs/C07%s.v' % x for x in ('a', 'b', 'd', 'e', 'f', 'g', 'i', 'j', 'k', 'l', '')]}
 BUDGET = {'quick': (10, 40), 'thorough': (60, 400)}          # scenarios, schedules per scenario
 
 
